@@ -13,14 +13,15 @@ Python state                                   model
 `len` for every history that joins existing dofs only (`i < N[p]`; an out-of-range key makes the real
 `patch_to_global_idx` raise `IndexError`, and is excluded by the `Valid` hypothesis of the theorems).
 
-Two variants are selected by `Cfg` (like `asCoded` in C15):
-  * `merge = false`  : `join_dofs` exactly as in the pinned source — three cases, **no merge** when the two
-                       dofs already belong to two different shared dofs (defect D10);
-    `merge = true`   : the repaired algorithm of /verif/fixes/C14-join-merge.patch (merge the classes in
-                       `join_dofs`, drop emptied classes and renumber in `finalize`).
-  * `unshared = false`: `patch_to_global_idx` as in the pinned source raises `IndexError` for a patch that
-                       has no shared dof (`np.array([])[:,0]`);
-    `unshared = true` : repaired by /verif/fixes/C14-unshared-patch.patch.
+Two switches in `Cfg` (like `asCoded` in C15).  /repo now contains both repairs (ddfa3af, 4c8c872), so
+`Cfg.repaired` is the model of the code as it is; `Cfg.asCoded` is the original source, kept for the negation
+witness (`glue_spec_asCoded_false`), for `glue_spec_partial` and for recognising a regression in the harness:
+  * `merge = true`   : `join_dofs` merges the two classes when both dofs are already shared with different ids,
+                       `finalize` drops emptied classes and renumbers (/verif/fixes/C14-join-merge.patch);
+    `merge = false`  : the original three-case loop — **no merge** in that situation (defect D10).
+  * `unshared = true` : `patch_to_global_idx` builds `sdofs` with `.reshape((-1, 2))`
+                       (/verif/fixes/C14-unshared-patch.patch);
+    `unshared = false`: the original raised `IndexError` for a patch without shared dofs (`np.array([])[:,0]`, D18).
 -/
 import Pyiga.Model.Index
 import Pyiga.Model.Slice
@@ -36,9 +37,9 @@ structure Cfg where
   unshared : Bool
   deriving DecidableEq, Repr
 
-/-- the pinned source -/
+/-- the original source (before ddfa3af / 4c8c872) -/
 def Cfg.asCoded : Cfg := ⟨false, false⟩
-/-- both repairs applied -/
+/-- the code as it is now: both repairs applied -/
 def Cfg.repaired : Cfg := ⟨true, true⟩
 
 structure State where
